@@ -36,7 +36,7 @@ PROFILES = {
     "c09-history": Profile("c09-history", {
         "new_doc": 4, "new_sec": 6, "new_prop": 6, "add_valid": 30, "remove_valid": 14,
         "set_card": 22, "restart": 8, "validate": 2, "reorder": 1, "rename": 1, "clone": 5,
-        "set_link": 3, "clean": 1, "finalize": 1, "deep_chain": 1,
+        "set_link": 3, "clean": 1, "finalize": 1, "deep_chain": 1, "linked_copy": 5,
     }, fault_share=0.3, detached_share=0.3, backends=("xml", "json", "yaml"), max_objs=90),
 }
 MONITORS = [mon_card]
